@@ -1411,3 +1411,21 @@ def _xyloc_left_behind(repo, ob, failure):
 
 GENERATORS.insert(0, ("C11.shorthand.xyloc", _xyloc_left_behind))
 GENERATORS.insert(0, ("C09.loc.xyloc", _xyloc_left_behind))
+
+
+def _ellipse_r_delta(repo, ob, failure):
+    """dw changes the width only, dh the height only - also for an ellipse whose two radii are spelled with one `r`"""
+    pairs = [('<ellipse cxy="10" r="4" dw="2"/>', '<ellipse cxy="10" rxy="4" dw="2"/>'),
+             ('<ellipse cxy="10" r="4" dwh="2 4"/>', '<ellipse cxy="10" rx="4" ry="4" dwh="2 4"/>'),
+             ('<ellipse cxy="10" r="4" dh="2"/>', '<ellipse cxy="10" rxy="4 4" dh="2"/>')]
+    for a, b in pairs:
+        ra, rb = run_svgdx(repo, "<svg>%s</svg>" % a, args=("--no-auto-styles",)), run_svgdx(repo, "<svg>%s</svg>" % b, args=("--no-auto-styles",))
+        if ra["rc"] == 0 and rb["rc"] == 0 and ra["out"] != rb["out"]:
+            return {"input": "<svg>%s</svg>" % a, "args": ["--no-auto-styles"], "observed": ra["out"].strip()[-120:], "expected": "the geometry of %s: %s" % (b, rb["out"].strip()[-120:])}
+    return None
+
+
+GENERATORS.insert(0, ("C11.delta.", _ellipse_r_delta))
+GENERATORS.insert(0, ("C09.delta.dw_changes", _ellipse_r_delta))
+GENERATORS.insert(0, ("C09.delta.dh_changes", _ellipse_r_delta))
+GENERATORS.insert(0, ("C09.delta.both", _ellipse_r_delta))
